@@ -212,6 +212,57 @@ End Compress.
 
 Arguments fc_result : clear implicits.
 
+(** * An Info object that is re-used and mutated (history independence)
+
+    info.py: [grid] / [mask] setters 79-102, [copy_with] 125-155, [__copy__] 203-205.  The model
+    of an Info consists of its CURRENT fields only; every operation is a function of them. *)
+
+Record info_state := mkinfo {
+  i_shape : shape;        (* data shape of the current grid *)
+  i_order : order;        (* memory order of the current grid *)
+  i_grid  : gspec;        (* layout of the current grid *)
+  i_mask  : mspec }.
+
+Inductive info_op :=
+| IPrepare (form : payload_form) (vals : list Z)    (* prepare(plain payload, info) *)
+| ISetGrid (o : order) (g : gspec)                  (* info.grid = grid of the same data shape *)
+| ISetMask (m : mspec)                              (* info.mask = m *)
+| ICopyWith (og : option (order * gspec)) (om : option mspec)   (* info = info.copy_with(...) *)
+| ICopy                                             (* info = copy.copy(info) *)
+| IAccepts (other : mspec) (down : bool).           (* info.accepts(Info(grid=info.grid, mask=other)) *)
+
+Inductive seq_obs :=
+| SPrep (d : list Z) (m : option (list bool))
+| SAcc (mask_ok : bool)
+| SNothing.
+
+Definition info_step (st : info_state) (op : info_op) : info_state * seq_obs :=
+  match op with
+  | IPrepare form vals =>
+      let r := prepare_mask (i_shape st) (i_order st) form vals 0%Z None (i_mask st) in
+      (st, SPrep (fst r) (snd r))
+  | ISetGrid o g => (mkinfo (i_shape st) o g (i_mask st), SNothing)
+  | ISetMask m => (mkinfo (i_shape st) (i_order st) (i_grid st) m, SNothing)
+  | ICopyWith og om =>
+      let '(o, g) := match og with Some p => p | None => (i_order st, i_grid st) end in
+      (mkinfo (i_shape st) o g (match om with Some m => m | None => i_mask st end), SNothing)
+  | ICopy => (st, SNothing)
+  | IAccepts other down =>
+      (st, SAcc (accepts_mask (i_mask st) (Some (i_grid st)) other (Some (i_grid st)) down))
+  end.
+
+Fixpoint info_run (st : info_state) (ops : list info_op) : list seq_obs :=
+  match ops with
+  | [] => []
+  | op :: r => let (st', ob) := info_step st op in ob :: info_run st' r
+  end.
+
+Fixpoint info_final (st : info_state) (ops : list info_op) : info_state :=
+  match ops with
+  | [] => st
+  | op :: r => info_final (fst (info_step st op)) r
+  end.
+
 (** * Correspondence interface *)
 
 Definition mkbits (sh : shape) (bits : list bool) : mspec := MBits (of_list OC sh bits false).
@@ -228,7 +279,8 @@ Inductive c18_case :=
 | KPrepare (sh : shape) (o : order) (form : payload_form) (vals : list Z)
            (w : option (option (list bool))) (im : mspec)
 | KAccept (sm : mspec) (sg : option gspec) (im : mspec) (ig : option gspec) (down : bool)
-| KExchange (om : mspec) (og : option gspec) (im : mspec) (ig : option gspec).
+| KExchange (om : mspec) (og : option gspec) (im : mspec) (ig : option gspec)
+| KSeq (st : info_state) (ops : list info_op).
 
 (** observed result of from_compressed: C-order data ([None] at masked entries) and mask *)
 Inductive fc_obs :=
@@ -241,6 +293,7 @@ Inductive c18_obs :=
 | OPrepare (d : list Z) (m : option (list bool))
 | OAccept (mask_ok : bool) (compatible : bool)
 | OExchange (r : option mspec)
+| OSeq (l : list seq_obs)
 | OOther (n : nat).        (* anything the model cannot produce (unexpected exception class) *)
 
 (** entries under the mask are not observable (uninitialised memory in the implementation) *)
@@ -267,6 +320,7 @@ Definition c18_model (c : c18_case) : c18_obs :=
   | KAccept sm sg im ig down =>
       OAccept (accepts_mask sm sg im ig down) (masks_compatible sm im down sg ig)
   | KExchange om og im ig => OExchange (exchange om og im ig)
+  | KSeq st ops => OSeq (info_run st ops)
   end.
 
 Definition optZ_eqb := option_eqb Z.eqb.
@@ -288,8 +342,17 @@ Definition fc_obs_eqb (a b : fc_obs) : bool :=
   | _, _ => false
   end.
 
+Definition seq_obs_eqb (a b : seq_obs) : bool :=
+  match a, b with
+  | SPrep d1 m1, SPrep d2 m2 => list_eqb Z.eqb d1 d2 && obits_eqb m1 m2
+  | SAcc x, SAcc y => Bool.eqb x y
+  | SNothing, SNothing => true
+  | _, _ => false
+  end.
+
 Definition c18_obs_eqb (a b : c18_obs) : bool :=
   match a, b with
+  | OSeq l1, OSeq l2 => list_eqb seq_obs_eqb l1 l2
   | ORound c1 r1, ORound c2 r2 => list_eqb Z.eqb c1 c2 && fc_obs_eqb r1 r2
   | OPrepare d1 m1, OPrepare d2 m2 => list_eqb Z.eqb d1 d2 && obits_eqb m1 m2
   | OAccept a1 b1, OAccept a2 b2 => Bool.eqb a1 a2 && Bool.eqb b1 b2
